@@ -36,3 +36,11 @@ package actions
 //@ loop 1
 //@   invariant $i >= -1
 //@   invariant forall k int :: 0 <= k && k < len(groups) ==> (groups[k] != nil && (exists j int :: 0 <= j && j <= $i && (references[j].UUID == "" || groups[k].UUID() == references[j].UUID)))
+
+//@ func resolveLabels
+//@   havocs EvaluateTemplate, NewErrorf, NewDependencyError, FindByName, Session, Assets, Labels
+//@   requires forall j int :: 0 <= j && j < len(references) ==> references[j] != nil
+//@   ensures [fixed_by_uuid] forall k int :: 0 <= k && k < len(result) ==> (result[k] != nil && (exists j int :: 0 <= j && j < len(references) && (references[j].UUID == "" || result[k].UUID() == references[j].UUID)))
+//@ loop 1
+//@   invariant $i >= -1
+//@   invariant forall k int :: 0 <= k && k < len(labels) ==> (labels[k] != nil && (exists j int :: 0 <= j && j <= $i && (references[j].UUID == "" || labels[k].UUID() == references[j].UUID)))
